@@ -29,6 +29,17 @@ func cteEncode(evs []Event, cfg *configuration.Configuration) ([]byte, error) {
 	return buf.Bytes(), err
 }
 
+// cteDecode runs the real CTE decoder into a recorder, optionally behind the rules.
+func cteDecode(doc []byte, cfg *configuration.Configuration, withRules bool) ([]Event, error) {
+	rec := &Recorder{}
+	var rcv events.DataEventReceiver = rec
+	if withRules {
+		rcv = rules.NewRules(rec, cfg)
+	}
+	err := cte.NewDecoder(cfg).DecodeDocument(doc, rcv)
+	return rec.Evs, err
+}
+
 func cteGenCfg() GenCfg {
 	return GenCfg{MaxDepth: 5, Budget: 25, NoPadding: true, NoBoolEv: true, NoNaNPayload: true}
 }
